@@ -1,6 +1,6 @@
 """Per-property registration used by ./check: engine, budgets, evidence texts."""
 
-ENGINES = ["poolsim", "msigsim", "bqsim", "ledger"]
+ENGINES = ["poolsim", "msigsim", "bqsim", "ledger", "mptsim", "storesim"]
 
 REGISTRY = {
     "C08": {
@@ -43,6 +43,9 @@ def _load(engine):
 
 
 REGISTRY["C18"] = _load("msigsim")
+_m = _load("mptsim")
+REGISTRY["C10"] = _m["C10"]
+REGISTRY["C11"] = _m["C11"]
 REGISTRY["C20"] = _load("bqsim")
 
 _LEDGER_COMPONENTS = {
@@ -118,4 +121,30 @@ REGISTRY["C03"] = dict(REGISTRY["C01"], **{
     "probes": ["c03_roots_verified", "c03_old_root_verified", "c03_paged_find", "c03_proofs_verified", "c03_tampered_proofs",
                "c03_absent_keys", "c03_historic_invocations", "c03_unretained_root_fails_cleanly", "c03_unretained_root_still_right",
                "clean_restart", "forced_flush", "timer_flush_tick"],
+})
+
+REGISTRY["C02"] = dict(REGISTRY["C01"], **{
+    "level": "fault_enumeration",
+    "level_text": ("the victim node's simulated disk records every atomic batch (PutChangeSet / SeekGC) it issues; for each generated "
+                   "run the crash points are the batch prefixes k=0..B (thorough: all of them; quick: 10 tape-chosen incl. first and "
+                   "last), each rebuilt as the database a power loss after batch k leaves, reopened with the real NewBlockchain and "
+                   "driven on; 1 run in 4 instead resets the stopped victim with Blockchain.Reset and crashes after every batch of "
+                   "the reset; the runs themselves are sampled"),
+    "level_note": ("trusted: simdisk batch log (values deep-copied at write time), image = replay of the batch prefix into a fresh "
+                   "backend of the same kind (file-level recovery of bbolt/goleveldb is not exercised); torn batches are not "
+                   "injected (the property respects the backend's atomicity); the state-jump scenario is covered by C20's engine"),
+    "design_ref": "DESIGN.md section 2, C02",
+    "technique": "deterministic simulation with crash injection at every durable batch boundary, recovered node vs uninterrupted reference, raw-dump equality for resumed resets",
+    "budget": {"quick": 90, "thorough": 2400},
+    "rule": _LEDGER_RULE + "C02: one victim replica; headers may arrive ahead of blocks; flushes forced per block or tape-chosen, with GC, "
+            "with injected disk-full errors; oracle per crash point: NewBlockchain succeeds, height within [durably flushed, last accepted], "
+            "observation == reference at that height, remaining blocks accepted with identical state roots and final observation; reset: "
+            "completed reset is observationally a fresh node synchronised to the target (heights, tip hash, blocks/txs/AERs retrievable, "
+            "transfer logs, next blocks), every crash point of the reset reopens at the old or the target height and a resumed reset ends "
+            "in the same raw database content (TokenTransferInfo compared decoded: its encoding iterates a Go map). "
+            "Non-trivial = at least one crash point examined; distinct = distinct event-log hash.",
+    "probes": ["crash_at_batch_boundary", "crash_during_reset", "disk_full_on_flush", "state_reset", "forced_flush", "timer_flush_tick",
+               "gc_batches", "batches", "all_crash_points_enumerated", "crash_lost_unflushed_blocks", "headers_ahead_of_blocks",
+               "reset_crash_before_marker", "reset_resumed", "reset_equivalence_checked", "reset_refused",
+               "backend_boltdb", "backend_leveldb", "backend_memory"],
 })
